@@ -455,6 +455,11 @@ impl ThreadCtx {
                 }
             }
             TOp::ReaderCheck => {
+                // holding a reader involves no library call: give the scheduler explicit points here,
+                // otherwise every check would run back to back before any other thread moves
+                for _ in 0..30 {
+                    rawdb::verif::pause("harness:reader-held");
+                }
                 if let Some((reader, snap, name)) = self.reader.take() {
                     self.check_reader(&reader, &snap, &name, op);
                     self.reader = Some((reader, snap, name));
